@@ -484,6 +484,19 @@ func init() {
 			if e.Fails && !bytes.Contains(res.Stderr, []byte(p)) {
 				rc.Violate("failure-not-logged", "input %s fails (%s) but stderr does not name it: %q\n%s", p, e.Why, clip(string(res.Stderr), 400), desc)
 			}
+			if e.Fails {
+				// a failure is reported once per mention (lines that begin an error report - not the note about falling back to plain reading - and name the path right before a colon;
+				// a tree that words its messages differently is simply not counted)
+				n := 0
+				for _, l := range strings.Split(string(res.Stderr), "\n") {
+					if strings.Contains(l, "Error ") && !strings.Contains(l, "Reading as plain file") && strings.Contains(l, " "+p+":") {
+						n++
+					}
+				}
+				if n > e.Mentions {
+					rc.Violate("failure-reported-twice", "input %s fails (%s) and is mentioned %d times, but %d error lines name it: %q\n%s", p, e.Why, e.Mentions, n, clip(string(res.Stderr), 500), desc)
+				}
+			}
 		}
 		// ---- exit status ----
 		wantExit := 0
